@@ -52,9 +52,10 @@ std::size_t gen_count(Rng& rng)
 
 std::string gen_name(Rng& rng)
 {
-    static char const* names[] = {"d1", "two words", "", " ", "  lead", "trail  ", "#x", "12 3", "\tTab", "a  b   c", "ends with CR\r", "\r", "mid\rdle", "trailing tab\t"};
-    std::size_t k = rng.below(15);
-    if (k == 14) return std::string(300, 'x') + " end";
+    static char const* names[] = {"d1", "two words", "", " ", "  lead", "trail  ", "#x", "12 3", "\tTab", "a  b   c", "ends with CR\r", "\r", "mid\rdle", "trailing tab\t",
+        "E_{\\nu} [GeV]", "back\\slash", "\\", "\\n", "quote\"d", "%s %d", "\\t\\r\\0"};
+    std::size_t k = rng.below(22);
+    if (k == 21) return std::string(300, 'x') + " end";
     return names[k];
 }
 
@@ -65,6 +66,7 @@ char const* name_class(std::string const& n)
     if (n[0] == ' ' || n[0] == '\t') return "leading-blank";
     if (n[n.size() - 1] == ' ' || n[n.size() - 1] == '\t') return "trailing-blank";
     if (n.find('\r') != std::string::npos) return "carriage-return";
+    if (n.find('\\') != std::string::npos) return "backslash";
     return "ordinary";
 }
 
